@@ -442,6 +442,9 @@ def buffer_WriteTo {δ : Type} (write : δ → List UInt8 → M (Int × Option E
     if r.1 != len buf then return (r.1, io_ErrShortWrite, buf.drop r.1.toNat, r.2.2)
     return (r.1, none, [], r.2.2)
 
+/-- a slice value stored where nil and empty are told apart (a nilable field): nil exactly when empty -/
+def nilIfEmpty {α : Type} (l : List α) : Option (List α) := if l.isEmpty then none else some l
+
 /-- `unicode.IsSpace` -/
 def unicode_IsSpace (r : Int) : Bool :=
   r == 9 || r == 10 || r == 11 || r == 12 || r == 13 || r == 32 || r == 0x85 || r == 0xA0 || r == 0x1680 ||
